@@ -205,7 +205,8 @@ def tool_report(stderr):
 
 
 class Shard:
-    def __init__(self, variant, args, timeout, label):
+    def __init__(self, variant, args, timeout, label, leaks_ok=False):
+        self.leaks_ok = leaks_ok
         self.variant = variant
         self.args = args
         self.timeout = timeout
@@ -222,6 +223,14 @@ class Shard:
 
 def run_shard(sh):
     prefix, env = build(sh.variant)
+    if sh.leaks_ok:
+        # the property allows leaks (C18): switch the leak detectors off for this run
+        env = dict(env)
+        if "ASAN_OPTIONS" in env:
+            env["ASAN_OPTIONS"] = env["ASAN_OPTIONS"].replace("detect_leaks=1", "detect_leaks=0")
+        if "MIRIFLAGS" in env:
+            env["MIRIFLAGS"] += " -Zmiri-ignore-leaks"
+        prefix = [p for p in prefix if not p.startswith("--leak-check") and not p.startswith("--errors-for-leak") and not p.startswith("--show-leak")]
     cmd = prefix + sh.args + ["--variant", sh.variant]
     t0 = time.time()
     try:
